@@ -47,6 +47,7 @@ func cmdRandom(args []string) error {
 	depth := fl.Int("depth", 3, "depth below the work directory")
 	sym := fl.Bool("sym", false, "symbolic links")
 	own := fl.Bool("own", false, "chown")
+	perm := fl.Bool("perm", false, "acting users, umasks, arbitrary modes and owners")
 	handles := fl.Bool("handles", false, "handle operations")
 	unclean := fl.Bool("unclean", false, "unclean spellings")
 	plans := fl.String("plans", "", "output: plans")
@@ -72,7 +73,7 @@ func cmdRandom(args []string) error {
 
 	drv.InstallSelfDeadlockHook()
 
-	o := drv.GenOpts{Names: strings.Split(*names, ","), Depth: *depth, Len: *ln, Sym: *sym, Own: *own, Handles: *handles, Unclean: *unclean}
+	o := drv.GenOpts{Names: strings.Split(*names, ","), Depth: *depth, Len: *ln, Sym: *sym, Own: *own, Handles: *handles, Unclean: *unclean, Perm: *perm}
 
 	return drv.GenerateOn(f, *seed, *n, o, pf, tf)
 }
